@@ -13,7 +13,7 @@ pub const START_DOCS: &[&str] = &[
     "<r><a id=\"1\">x<b/>y</a><c k=\"v\"><!--m--><d/></c><?p q?>t</r>",
     "<r id=\"r\"><a id=\"1\" k=\"x\">t</a><b id=\"2\" k=\"y\"><c k=\"z\"/></b></r>",
     "<!DOCTYPE r [<!ENTITY e \"ee\"><!ATTLIST a d CDATA \"dv\">]><r>t1<a n=\"1\">&e;<![CDATA[cd]]></a><b><c><d>deep</d></c></b></r>",
-    "<r xmlns:p=\"urn:p\"><p:a p:k=\"1\">\u{e9}\u{1F600}</p:a><b>one</b>two<b>three</b></r>",
+    "<r xmlns=\"urn:d\" xmlns:p=\"urn:1\"><p:a p:k=\"1\">\u{e9}\u{1F600}</p:a><b>one</b>two<s xmlns:p=\"urn:2\" xmlns=\"\"><p:c/><d>three</d></s></r>",
     "<?x y?><r><!--c1--><a>a-b-c</a><b>]]</b><c>1</c></r><!--end-->",
     "<r><!--a-b-c--><![CDATA[]]x>]]><t>]]x></t><u q=\"x'\">-</u><!---x--></r>",
 ];
@@ -120,6 +120,8 @@ pub fn gen_history(g: &mut Genes, cfg: &HistCfg) -> Json {
                 // mostly a real child of the receiver as reference / old / removed child
                 let rel = g.chance(2, 3);
                 let r = if rel { json!([rc, "child-of", p.clone()]) } else { r };
+                // now and then the new child is an ancestor of the receiver (must be refused: hierarchy)
+                let c = if g.chance(1, 12) { json!([rb, "ancestor-of", p.clone()]) } else { c };
                 match g.weighted(&[4, 3, 2, 3]) {
                     0 => json!({"op": "append", "p": p, "c": c}),
                     1 => json!({"op": "insert_before", "p": p, "c": c, "r": r}),
@@ -260,6 +262,24 @@ impl Pool {
                         let n = &self.nodes[i];
                         match rel {
                             "child-of" => !matches!(n, XmlNode::Attribute(_)) && n.parent_node().map(|p| same(i, &p)).unwrap_or(false),
+                            // a proper ancestor of the base operand (inserting it below the base must be refused)
+                            "ancestor-of" => {
+                                let mut cur = self.nodes[base].parent_node();
+                                let mut hit = false;
+                                let mut steps = 0;
+                                while let Some(p) = cur {
+                                    if self.origin[i] == self.origin[base] && n.id() == p.id() && std::mem::discriminant(n) == std::mem::discriminant(&p) {
+                                        hit = true;
+                                        break;
+                                    }
+                                    steps += 1;
+                                    if steps > 64 {
+                                        break;
+                                    }
+                                    cur = p.parent_node();
+                                }
+                                hit && !matches!(n, XmlNode::Document(_))
+                            }
                             "attr-of" => match n {
                                 XmlNode::Attribute(a) => a.owner_element().map(|e| same(i, &e.as_node())).unwrap_or(false),
                                 _ => false,
